@@ -82,6 +82,12 @@ func (c *Ctx) Fail(construct, rule string, pos token.Pos, detail string) {
 	c.add(&Ob{Key: c.key(construct), Rule: rule, Status: Violated, Detail: detail, Pos: c.P.Pos(pos)})
 }
 
+// FailAt records a violated obligation whose position is already rendered (used when the finding
+// comes from another load of the program, e.g. the whole-module pass).
+func (c *Ctx) FailAt(construct, rule, where, detail string) {
+	c.add(&Ob{Key: c.key(construct), Rule: rule, Status: Violated, Detail: detail, Pos: where})
+}
+
 // Undecided records an obligation that the rule could not classify (counts as failure).
 func (c *Ctx) Undecided(construct, rule string, pos token.Pos, detail string) {
 	c.add(&Ob{Key: c.key(construct), Rule: rule, Status: Undecided, Detail: detail, Pos: c.P.Pos(pos)})
